@@ -377,6 +377,88 @@ theorem redis_sethash_ttl_witness :
                (1003, .ttl "h")] ["ok", "ok", "ok", "d0"] = true := by
   decide +kernel
 
+/-! ## Degenerate arguments -/
+
+/-- **`SetList` replaces the list for EVERY value list, the empty one included**: afterwards
+`GetList` answers exactly the new members and `AppendToList` appends to them — nothing of the
+previous value survives (reference; `C13_refines` transfers it to the memory backend, whose
+histories range over all arguments: empty list, empty field, zero increment, empty key, empty value). -/
+theorem C13_setList_replaces (now t : Nat) (s : Store) (k : String) (xs : List Atom) (ttl : Int)
+    (h : ttl ≤ 0) (a : Atom) :
+    (TTLStore.getList t (TTLStore.set now s k (.list xs) ttl).1 k).2 = .val (.list xs) ∧
+    (TTLStore.getList t
+      (TTLStore.append Spec.dflt t (TTLStore.set now s k (.list xs) ttl).1 k a).1 k).2 = .val (.list (xs ++ [a])) := by
+  have hd : deadline now ttl = 0 := by simp [deadline, h]
+  have h1 : find t (TTLStore.set now s k (.list xs) ttl).1 k = some ⟨.list xs, 0⟩ := by
+    simp [TTLStore.set, find_insert_eq, hd, Entry.live]
+  constructor
+  · simp [TTLStore.getList, h1]
+  · simp [TTLStore.getList, TTLStore.append, h1, find_insert_eq, Entry.live]
+
+theorem repoRun_length (h : History) : ∀ s, (repoRun h s).length = h.length := by
+  induction h with
+  | nil => intro s; rfl
+  | cons e h ih => intro s; obtain ⟨now, op⟩ := e; simp [repoRun, ih]
+
+theorem vanishRun_length (h : History) : ∀ s, (vanishRun h s).length = h.length := by
+  induction h with
+  | nil => intro s; rfl
+  | cons e h ih => intro s; obtain ⟨now, op⟩ := e; simp [vanishRun, ih]
+
+theorem agree_self_left : ∀ (ws vs : List String), ws.length = vs.length →
+    agreeWhereComparable ws ws vs = true := by
+  intro ws
+  induction ws with
+  | nil => intro vs h; cases vs with
+    | nil => rfl
+    | cons _ _ => simp at h
+  | cons w ws ih => intro vs h; cases vs with
+    | nil => simp at h
+    | cons v vs => simp [agreeWhereComparable, ih vs (by simpa using h)]
+
+theorem agree_self_right : ∀ (ws vs : List String), ws.length = vs.length →
+    agreeWhereComparable vs ws vs = true := by
+  intro ws
+  induction ws with
+  | nil => intro vs h; cases vs with
+    | nil => rfl
+    | cons _ _ => simp at h
+  | cons w ws ih => intro vs h; cases vs with
+    | nil => simp at h
+    | cons v vs =>
+      by_cases e : w = v
+      · subst e; simp [agreeWhereComparable, ih vs (by simpa using h)]
+      · simp [agreeWhereComparable, e, ih vs (by simpa using h)]
+
+/-- **What `holdsRepo` admits**, for every history: the answers of the reference itself, and the
+answers of the reference with vanishing empty containers (the one respect in which Redis may
+differ).  Anything else on a comparable answer is rejected (see the witnesses). -/
+theorem holdsRepo_admits (h : History) :
+    holdsRepo h (repoRun h TTLStore.empty) = true ∧ holdsRepo h (vanishRun h TTLStore.empty) = true := by
+  have hl : (repoRun h TTLStore.empty).length = (vanishRun h TTLStore.empty).length := by
+    rw [repoRun_length, vanishRun_length]
+  exact ⟨agree_self_left _ _ hl, agree_self_right _ _ hl⟩
+
+/-- Seeded regression "SetList pipeline rejects the empty list": on Redis `SetList(k, [])` fails and
+the previous members stay; both the error and the stale answers fail the predicate, the reference
+answers pass. -/
+theorem redis_setlist_empty_witness :
+    holdsRepo [(1000, .set "l" (.list [.str "x", .str "y"]) 0), (1001, .set "l" (.list []) 0),
+               (1002, .getList "l"), (1003, .append "l" (.str "z")), (1004, .getList "l")]
+      ["ok", "ok", "L[s78,s79]", "ok", "L[s78,s79,s7a]"] = false ∧
+    holdsRepo [(1000, .set "l" (.list [.str "x", .str "y"]) 0), (1001, .set "l" (.list []) 0),
+               (1002, .getList "l"), (1003, .append "l" (.str "z")), (1004, .getList "l")]
+      ["ok", "ok", "L[]", "ok", "L[s7a]"] = true := by
+  decide +kernel
+
+/-- Repaired defect: Redis `CompareAndSwap` took the empty string for nil. -/
+theorem redis_cas_empty_string_witness :
+    holdsRepo [(1000, .set "a" (.atom (.str "")) 0), (1001, .cas "a" none (.atom (.str "x")) 0), (1002, .get "a")]
+      ["ok", "T", "s78"] = false ∧
+    holdsRepo [(1000, .set "a" (.atom (.str "")) 0), (1001, .cas "a" none (.atom (.str "x")) 0), (1002, .get "a")]
+      ["ok", "F", "s-"] = true := by
+  decide +kernel
+
 /-! ## Findings -/
 
 /-- Known finding `redis-hash-int-float` (not repaired): an int64 hash member written through the
